@@ -98,7 +98,8 @@ func keyRank(k string) int {
 	case strings.HasPrefix(k, "panic:"):
 		return 1
 	case strings.Contains(k, ":markers-split-by-chunk-headers"), strings.Contains(k, ":chunk-header-inside"),
-		strings.Contains(k, ":plus-sign"):
+		strings.Contains(k, ":plus-sign"), strings.Contains(k, ":no-literal-marker:"), strings.Contains(k, ":literal-marker-in-cdata-or-comment"),
+		strings.HasPrefix(k, "c02/frame-boundary-regex:"):
 		return 9
 	}
 	return 5
@@ -283,17 +284,16 @@ func errFormClass(p []byte) string {
 			other = true
 		}
 	}
-	var l []string
-	if other {
-		l = append(l, "prefix-other-than-nc")
+	// one class per input: the prefix decides first, then the self-closing form, then the end tag
+	switch {
+	case other:
+		return ":no-literal-marker:prefix-other-than-nc"
+	case errSelfCloseRe.Match(p):
+		return ":no-literal-marker:self-closing"
+	case errCloseWSRe.Match(p):
+		return ":no-literal-marker:closing-tag-whitespace"
 	}
-	if errCloseWSRe.Match(p) {
-		l = append(l, "closing-tag-whitespace")
-	}
-	if errSelfCloseRe.Match(p) {
-		l = append(l, "self-closing")
-	}
-	return ":no-literal-marker:" + strings.Join(l, "+")
+	return ":no-literal-marker:other"
 }
 
 // errObs records what kind of error reply a payload is (evidence counters for the rpc-error dimension).
@@ -603,7 +603,7 @@ func runMut(seed int64, n int) mon.Result {
 // runErrForms enumerates every opening form x prefix x closing form of an rpc-error element (one and
 // two per reply) plus the decoys, in 1.0 framing and in 1.1 framing as one chunk, 7-byte chunks and
 // 1-byte chunks.
-func runErrForms() mon.Result {
+func runErrForms(part string) mon.Result {
 	r := rand.New(rand.NewSource(7))
 	b := newBatch()
 	judge := func(p, variant string) {
@@ -636,6 +636,9 @@ func runErrForms() mon.Result {
 		seenOpen[o.name] = true
 		for _, pfx := range []string{"", "nc", "ns0", "netconf"} {
 			for _, cw := range []string{"", " "} {
+				if (part == "end-tag-plain") != (cw == "") || (part != "end-tag-plain" && part != "end-tag-whitespace") {
+					continue
+				}
 				f := ErrForm{Prefix: pfx, Open: o.text, OpenName: o.name, CloseWS: cw, Severity: "error"}
 				if pfx != "" {
 					f.Open = strings.ReplaceAll(strings.ReplaceAll(f.Open, `xmlns="`, "xmlns:"+pfx+`="`), `xmlns='`, "xmlns:"+pfx+`='`)
@@ -654,12 +657,19 @@ func runErrForms() mon.Result {
 		}
 	}
 	for _, dcy := range decoys {
-		judge(wrap("", dcy.text), "decoy="+dcy.name)
+		if part == "decoys" {
+			judge(wrap("", dcy.text), "decoy="+dcy.name)
+		}
 	}
 	for _, dcy := range literalDecoys {
-		judge(wrap("", dcy.text), "literal-decoy="+dcy.name)
+		if part == "literal-decoys" {
+			judge(wrap("", dcy.text), "literal-decoy="+dcy.name)
+		}
 	}
-	judge(wrap("", "<rpc-error/>"), "self-closing-rpc-error")
+	if part == "self-closing" {
+		judge(wrap("", "<rpc-error/>"), "self-closing-rpc-error")
+		judge(wrap("", `<rpc-error xmlns="`+baseNS+`"/>`), "self-closing-rpc-error-with-xmlns")
+	}
 	return b.result(true, map[string]interface{}{"payloads": b.obs["errform_payloads"]})
 }
 
